@@ -91,6 +91,10 @@ func exprFieldLoads(v ssa.Value, depth int, out *[]fieldLoad, seen map[ssa.Value
 	switch x := v.(type) {
 	case *ssa.UnOp:
 		if x.Op == token.MUL {
+			if t := aliasTarget(x.X); t != nil {
+				exprFieldLoads(t, depth+1, out, seen)
+				return
+			}
 			if t, f, base, ok := fieldRef(x.X); ok {
 				*out = append(*out, fieldLoad{t, f, pathOf(base)})
 				return
@@ -247,7 +251,7 @@ func c07(c *Ctx) {
 				}
 			}
 			// accepted idiom 1: value = NanoMax(into.Timestamp, from.Timestamp)
-			if call, ok := st.Val.(*ssa.Call); ok && isCall(call, "gostatsd.NanoMax") {
+			if call, ok := st.Val.(*ssa.Call); ok && (isCall(call, "gostatsd.NanoMax") || isCall(call, "builtin max")) {
 				ls := loadsOf(call)
 				hasInto, hasOther := false, false
 				for _, l := range ls {
@@ -434,7 +438,21 @@ func c07(c *Ctx) {
 					}
 				}
 			})
-			r.Check(key, ok, s.Lookup.Pos(), "every found-branch path must insert each incoming member (range over incoming Values, or the metric's StringValue) into the existing set")
+			// the same union spelled maps.Copy(into.Values, from.Values)
+			if !ok {
+				pd := newPostDom(s.Fn)
+				for _, cl := range callsIn(s.Fn) {
+					if !strings.HasPrefix(calleeName(cl), "maps.Copy") || !inRegion(cl.Block(), s.FoundBlk) {
+						continue
+					}
+					a := cl.Common().Args
+					dst, src := loadsOf(a[0]), loadsOf(a[1])
+					if len(dst) == 1 && len(src) == 1 && dst[0].T == "Set" && dst[0].F == "Values" && src[0].F == "Values" && dst[0].Base != src[0].Base && onAllFoundPaths(s, pd, cl.Block()) {
+						ok = true
+					}
+				}
+			}
+			r.Check(key, ok, s.Lookup.Pos(), "every found-branch path must insert each incoming member (range over incoming Values, maps.Copy, or the metric's StringValue) into the existing set")
 			checkTimestamp(r, s)
 		}
 	})
@@ -560,7 +578,19 @@ func c07(c *Ctx) {
 			}
 			a := feat(s.ElseBlk, s.FoundBlk)
 			b := feat(outerElse, nil)
-			r.Check(key, strings.Join(a, ";") == strings.Join(b, ";"), s.Lookup.Pos(), fmt.Sprintf("new-tagset branch builds %v, new-name branch builds %v", a, b))
+			// get-or-create form: the new-name branch only installs an empty per-name map and falls into the
+			// same tags lookup, so one builder serves both cases
+			collapsed := false
+			if len(b) == 0 && reachableFrom(outerElse)[s.Lookup.Block()] {
+				for _, in := range outerElse.Instrs {
+					if mu, ok := in.(*ssa.MapUpdate); ok {
+						if _, isMk := mu.Value.(*ssa.MakeMap); isMk {
+							collapsed = true
+						}
+					}
+				}
+			}
+			r.Check(key, collapsed || strings.Join(a, ";") == strings.Join(b, ";"), s.Lookup.Pos(), fmt.Sprintf("new-tagset branch builds %v, new-name branch builds %v", a, b))
 		}
 	})
 
